@@ -169,6 +169,9 @@ def sender_programs(ctx, n_gen):
         ('ascii', [{'a': 'att'}, s1('k1', 'v1'), {'a': 'sleep', 'ms': 250}, {'a': 'w', 'op': long_batch(150, 0, 'k1')}, {'a': 'sleep', 'ms': 150},
                    s1('k2', 'v2'), {'a': 'abn', 'op': long_batch(120, 3, 'k2')}, {'a': 'ab', 'op': long_batch(101, 5)}, {'a': 'det'},
                    {'a': 'w', 'op': long_batch(130, 7)}, s1('k3', 'v3'), {'a': 'ab', 'op': long_batch(110, 2, 'k3')}, {'a': 'att'}]),
+        # rotation while the session is still catching up a backlog of several chunks, more chunks written behind it
+        ('ascii', [{'a': 'ab', 'op': long_batch(104 + i, i)} for i in range(6)] + [{'a': 'att'}, {'a': 'sleep', 'ms': 160}, {'a': 'flush'}] +
+         [{'a': 'w', 'op': long_batch(103 + i, 3 + i)} for i in range(3)] + [s1('k1', 'v1')]),
         # detach / re-attach from the applied position with a backlog
         ('ascii', [s1('k1', 'v1'), {'a': 'att'}, s1('k2', 'v2'), {'a': 'flush'}, s1('k3', 'v3'), {'a': 'det'}, {'a': 'w', 'op': t3('v4', 'v5', 'v6')},
                    s1('k1', 'v7'), {'a': 'att'}, {'a': 'sleep', 'ms': 120}, {'a': 'abn', 'op': t3('v8', 'v9', 'TOMB')}]),
@@ -330,7 +333,13 @@ def fixed_scenarios():
                  {'a': 'w', 'op': long_batch(150, 0, 'k1')}, {'a': 'sleep', 'ms': 500}, {'a': 'w', 'op': [{'k': 'k2', 'v': 'v2'}]},
                  {'a': 'sleep', 'ms': 500}, {'a': 'abn', 'op': long_batch(120, 3, 'k2')}, {'a': 'sleep', 'ms': 300},
                  {'a': 'ab', 'op': long_batch(101, 5)}, {'a': 'w', 'op': [{'k': 'k3', 'v': 'v3'}]}]
-    return [('pushed-batches-over-100-entries', long_push, 'ascii', 'mid'), ('restart-after-transaction-writes-while-down', restart, 'ascii', 'mid'), ('catchup-volume-cut-in-transaction', vol, 'huge', 'mid'), ('pushed-batches-over-256KB', big_push, 'huge', 'mid'), ('pushed-applybatch-numbered-entries', numbered, 'ascii', 'mid'),
+    # the log is rotated while a late replica is still catching up a backlog of many chunks, and much more is written behind the
+    # rotation point: the catch-up has to go on from the NEW log object
+    rot = [{'a': 'ab', 'op': long_batch(105 + i % 7, i)} for i in range(14)]
+    rot.insert(5, {'a': 'w', 'op': [{'k': 'k1', 'v': 'v1'}]})
+    rot += [{'a': 'join'}, {'a': 'sleep', 'ms': 650}, {'a': 'flush'}] + [{'a': 'ab', 'op': long_batch(104 + i, 4 + i)} for i in range(4)]
+    rot += [{'a': 'w', 'op': [{'k': 'k2', 'v': 'v2'}]}]
+    return [('rotation-during-catchup', rot, 'ascii', 'mid'), ('pushed-batches-over-100-entries', long_push, 'ascii', 'mid'), ('restart-after-transaction-writes-while-down', restart, 'ascii', 'mid'), ('catchup-volume-cut-in-transaction', vol, 'huge', 'mid'), ('pushed-batches-over-256KB', big_push, 'huge', 'mid'), ('pushed-applybatch-numbered-entries', numbered, 'ascii', 'mid'),
             ('chunk-cuts-batch-join-after', many, 'ascii', 'mid'), ('single-after-idle', single_after_idle, 'binary', 'mid'),
             ('pushed-transactions', txn_push, 'ascii', 'mid'), ('flush-between', flush_between, 'ascii', 'mid'),
             ('big-values-join-after', many[60:], 'big', 'bigval')]
@@ -550,7 +559,8 @@ def run_fault(ctx, job, tag):
     elif cmd == 'repl-churn':
         args += ['-seed', str(ctx.seed * 10 + job.get('seedoff', 0)), '-healthy', str(job.get('healthy', 0)), '-sync', str(job.get('sync', 0)),
                  '-rounds', str(job.get('rounds', 12)), '-writers', str(job.get('writers', 4)), '-valb', str(job.get('valb', 200)),
-                 '-pace_us', str(job.get('pace_us', 0))] + (['-head'] if job.get('head') else [])
+                 '-pace_us', str(job.get('pace_us', 0)), '-flush_ms', str(job.get('flush_ms', 0))] + (['-head'] if job.get('head') else []) + \
+                (['-ack'] if job.get('ack') else [])
     else:
         args += ['-scenario', job['scenario']]
     try:
@@ -597,6 +607,9 @@ def fault_jobs(ctx):
     jobs += [
         {'name': 'churn writers=4 sync=none', 'cmd': 'repl-churn', 'sync': 0, 'rounds': 12},
         {'name': 'churn writers=4 sync=immediate', 'cmd': 'repl-churn', 'sync': 2, 'rounds': 12, 'seedoff': 1},
+        # retention: a protocol client acknowledges every few ms while the writers run and the log is rotated now and then
+        {'name': 'churn writers=3 sync=immediate flushes acknowledging-client', 'cmd': 'repl-churn', 'sync': 2, 'rounds': 4, 'writers': 3,
+         'ack': True, 'flush_ms': 150, 'seedoff': 2},
         {'name': 'gated push-dead-stream', 'cmd': 'repl-gated', 'scenario': 'push-dead-stream'},
         {'name': 'gated hb-fail', 'cmd': 'repl-gated', 'scenario': 'hb-fail'},
     ]
@@ -605,6 +618,8 @@ def fault_jobs(ctx):
                   'seedoff': 10 + i} for i in range(4)]
         jobs += [{'name': f'churn writers={w} seed+{i}', 'cmd': 'repl-churn', 'sync': i % 2 * 2, 'rounds': 20, 'writers': w, 'seedoff': 20 + i}
                  for i, w in enumerate((1, 2, 8, 8))]
+        jobs += [{'name': f'churn acknowledging-client sync={sy} writers={w}', 'cmd': 'repl-churn', 'sync': sy, 'rounds': 10, 'writers': w, 'ack': True,
+                  'flush_ms': fm, 'seedoff': 40 + i} for i, (sy, w, fm) in enumerate(((0, 4, 100), (2, 2, 300), (0, 2, 60), (2, 4, 80)))]
         jobs += [{'name': 'churn paced healthy=1', 'cmd': 'repl-churn', 'healthy': 1, 'rounds': 8, 'pace_us': 100000, 'writers': 2,
                   'seedoff': 30, 'timeout': 400}]
     if not ctx.quick():
@@ -678,7 +693,7 @@ def check_C14(ctx):
     pool = cf.ThreadPoolExecutor(max_workers=1)
     sysfut = pool.submit(run_sys_jobs, ctx, jobs, 'c14-')
     mc(ctx, [('KevoRepl', 'MC_Repl_live.cfg', 280), ('KevoRepl', 'MC_Repl_two.cfg', 280)],
-       negatives=[('KevoRepl', 'MC_Repl_neg_rotate.cfg', 'Converges')])
+       negatives=[('KevoRepl', 'MC_Repl_neg_rotate.cfg', 'Converges'), ('KevoRepl', 'MC_Repl_neg_stalehandle.cfg', 'Converges')])
     replay_witnesses(ctx, 'C14')
     runs = sysfut.result()
     pool.shutdown()
@@ -694,7 +709,7 @@ def check_C14(ctx):
                    'KevoRepl liveness model-checked without state constraint: under weak fairness of senders, delivery, apply, acknowledge and '
                    'reconnect every replica that has not stalled converges once the primary stops ((<>[](stop /\\ ~stall)) => <>[]Converged) for '
                    'join before/during/after, restart, rotation and batches, also next to a stalled second replica; leaving the observer on '
-                   'the first log object violates it. Bound to the code by system scenarios: programs drawn by TLC simulation of GEN_ReplSys '
+                   'the first log object, or letting the catch-up of a stream keep the log object of its start, violates it. Bound to the code by system scenarios: programs drawn by TLC simulation of GEN_ReplSys '
                    '(writes, deletes, multi-key transactions and Engine.ApplyBatch calls (entries un-numbered or carrying the number of the batch), flush = log rotation, join position moved to 0/25/50/100 % of the program, pauses '
                    'where the behaviour has the replica catching up, client writes on the replica) plus regression classes (a 100-entry chunk '
                    'boundary inside a transaction, a single write after an idle period, pushed transactions, pushed batches over the 256 KB batcher limit, ApplyBatch with numbered entries, flushes between writes, 40/70 KB '
@@ -724,7 +739,8 @@ def check_C15(ctx):
              ('MC_ReplLocks', 'MC_Repl_locks.cfg', 120), ('MC_ReplLocks', 'MC_Repl_locks_nosync.cfg', 120)],
        negatives=[('MC_ReplLocks', 'MC_Repl_locks_neg_order.cfg', 'Deadlock reached'),
                   ('MC_ReplLocks', 'MC_Repl_locks_neg_unreg.cfg', 'Deadlock reached'),
-                  ('MC_ReplLocks', 'MC_Repl_locks_neg_hbleak.cfg', 'Deadlock reached')])
+                  ('MC_ReplLocks', 'MC_Repl_locks_neg_hbleak.cfg', 'Deadlock reached'),
+                  ('MC_ReplLocks', 'MC_Repl_locks_neg_retention.cfg', 'Deadlock reached')])
     replay_witnesses(ctx, 'C15')
     runs = [f.result() for f in futs]
     pool.shutdown()
@@ -791,9 +807,9 @@ def check_C15(ctx):
                    'driver writes until an operation misses its deadline or the byte budget (64 MB) is used; every invoke needs its return, the '
                    'faulty client must leave GetNodeInfo, the healthy replica must equal the primary afterwards; traces validated by TLC against '
                    'TRACE_Repl. The lock structure of the primary (WAL lock, sessions RW lock with pending-writer blocking, session lock; writer, '
-                   'catch-up, registration, heartbeat) is model-checked in MC_ReplLocks: a started write returns and no deadlock exists for the '
-                   'repaired order; the order before fix 11 and two seeded variants deadlock. Bound by churn scenarios (full-rate writers while '
-                   'clients attach, read, reset or stall-then-reset their connection for 12+ rounds) and two gated scenarios that park the StreamWAL '
+                   'catch-up, registration, heartbeat, acknowledgement + retention) is model-checked in MC_ReplLocks: a started write returns and no deadlock exists for the '
+                   'repaired order; the order before fix 11 and three seeded variants deadlock. Bound by churn scenarios (full-rate writers while '
+                   'clients attach, read, reset or stall-then-reset their connection for 12+ rounds; with periodic flushes and a protocol client that acknowledges every few ms) and two gated scenarios that park the StreamWAL '
                    'handler before its exit / the heartbeat before its send. Sampled fault points and sizes, not exhaustive. '
                    'distinct_nontrivial = fault scenarios run')
 
